@@ -897,6 +897,11 @@ func (st *tunnelClientStream) finishStream(err error, trailers metadata.MD) bool
 	}
 	if !st.gotHeaders {
 		st.gotHeaders = true
+		// The RPC ended without response headers: grpc.Header targets must
+		// report that (like Header() does), not whatever they held before.
+		for _, hdrs := range st.headersTargets {
+			*hdrs = st.headers
+		}
 		close(st.gotHeadersSignal)
 	}
 	close(st.doneSignal)
